@@ -299,6 +299,23 @@ func (l *Link) Reset() {
 	l.S2C.doReset()
 }
 
+// InjectC2S puts bytes on the wire towards the server as if the network
+// delivered them now (e.g. bytes a middlebox held back); not recorded as sent.
+func (l *Link) InjectC2S(p []byte) {
+	h := l.C2S
+	h.mu.Lock()
+	h.buf = append(h.buf, p...)
+	h.cond.Broadcast()
+	h.mu.Unlock()
+}
+
+// ReadC2S reports how many bytes the server end has taken off the wire.
+func (l *Link) ReadC2S() int64 {
+	l.C2S.mu.Lock()
+	defer l.C2S.mu.Unlock()
+	return l.C2S.nRead
+}
+
 // SentC2S returns a copy of everything the client wrote (pre-filter).
 func (l *Link) SentC2S() []byte { return l.C2S.snapshot() }
 
